@@ -248,6 +248,11 @@ package model
 //@   assert-at call heap.Push #1 : tagis(arg1, "*candidate")
 //@   assert-at call heap.Push #2 : tagis(arg1, "*candidate")
 //@   assert-at call heap.Push #3 : tagis(arg1, "*candidate")
+// -- extension (after seeded change C20-seed4, same code as BytePairEncoding.Encode) -- the skip test of the
+// special-token split takes no other length than len(frag.ids): the next len() site is len(special) on the path
+// where the literal was found in this fragment
+//@   assert-at call len #3 : arg0 == frag.ids && frag.value == fragments[i].value
+//@   assert-at call len #4 : arg0 == special && ghost_ix >= 0
 
 //@ func (SentencePieceModel).Decode
 //@   requires forall k int :: 0 <= k && k < len(ids) ==> 0 <= ids[k] && ids[k] < len(spm.vocab.Values)
